@@ -32,11 +32,13 @@ pub enum RecEv {
 }
 
 /// a recording `Cache` between RandomPolicy and MemoryStore: what the policy asked of the inner store
+#[cfg(feature = "wrappers")]
 pub struct Recorder {
     pub inner: Arc<MemoryStore>,
     pub log: std::sync::Mutex<Vec<RecEv>>,
 }
 
+#[cfg(feature = "wrappers")]
 impl memcrs::cache::cache::impl_details::CacheImplDetails for Recorder {
     fn get_by_key(&self, key: &KeyType) -> memcrs::cache::error::Result<Record> {
         self.inner.get_by_key(key)
@@ -46,6 +48,7 @@ impl memcrs::cache::cache::impl_details::CacheImplDetails for Recorder {
     }
 }
 
+#[cfg(feature = "wrappers")]
 impl Cache for Recorder {
     fn get(&self, key: &KeyType) -> memcrs::cache::error::Result<Record> {
         self.inner.get(key)
@@ -89,6 +92,12 @@ impl Cache for Recorder {
         }
         r
     }
+}
+
+/// without the wrappers: no recording cache (policy programs cannot be compared with the model then)
+#[cfg(not(feature = "wrappers"))]
+pub struct Recorder {
+    pub log: std::sync::Mutex<Vec<RecEv>>,
 }
 
 pub struct Sut {
@@ -137,10 +146,16 @@ impl Sut {
         let clock = Arc::new(Clock(AtomicU64::new(0)));
         let inner = Arc::new(MemoryStore::new(clock.clone()));
         let (store, policy, recorder): (Arc<dyn Cache + Send + Sync>, Option<Arc<RandomPolicy>>, Option<Arc<Recorder>>) = match policy_limit {
+            #[cfg(feature = "wrappers")]
             Some(l) => {
                 let rec = Arc::new(Recorder { inner: inner.clone(), log: std::sync::Mutex::new(vec![]) });
                 let p = Arc::new(RandomPolicy::new(rec.clone(), l));
                 (p.clone(), Some(p), Some(rec))
+            }
+            #[cfg(not(feature = "wrappers"))]
+            Some(l) => {
+                let p = Arc::new(RandomPolicy::new(inner.clone(), l));
+                (p.clone(), Some(p), None)
             }
             None => (inner.clone(), None, None),
         };
